@@ -243,12 +243,10 @@ def maybeEmitMacroSepBeforeKw (kwTokType : TokenType) : Prog Unit := do
         | _ => pure true)
     if notMasked then emitD .MacroSep
 
-/-- `dispatch_macro_call_or_stat`. `kwTokType` ranges over the Rust subset enum
+/-- the `match` of `dispatch_macro_call_or_stat` (the mode pre-load of each keyword). `kwTokType` ranges over the Rust subset enum
 `TokenTypeMacroCallOrStat` (`MacroIdentifier..=KwmRun`); the arms below cover it exactly,
 in the order of the Rust `match`. -/
-def dispatchMacroCallOrStat (cfg : Cfg) (kwTokType : TokenType) (allowMacroLabel : Bool) : Prog Unit := do
-  if cfg.macroSep then maybeEmitMacroSepBeforeKw kwTokType
-  emit (if tokOneOf kwTokType [.KwmStr, .KwmNrStr] then .HIDDEN else .DEFAULT) kwTokType
+def macroCallOrStatPreload (kwTokType : TokenType) (allowMacroLabel : Bool) : Prog Unit := do
   if tokOneOf kwTokType [.KwmStr, .KwmNrStr] then
     expectMacroStrCallArgs (kwTokType == .KwmNrStr)
   else if tokOneOf kwTokType [.KwmEval, .KwmSysevalf] then
@@ -336,6 +334,11 @@ def dispatchMacroCallOrStat (cfg : Cfg) (kwTokType : TokenType) (allowMacroLabel
   else
     -- not a value of `TokenTypeMacroCallOrStat`: excluded by the Rust type
     abort "unreachable: dispatch_macro_call_or_stat"
+
+def dispatchMacroCallOrStat (cfg : Cfg) (kwTokType : TokenType) (allowMacroLabel : Bool) : Prog Unit := do
+  if cfg.macroSep then maybeEmitMacroSepBeforeKw kwTokType
+  emit (if tokOneOf kwTokType [.KwmStr, .KwmNrStr] then .HIDDEN else .DEFAULT) kwTokType
+  macroCallOrStatPreload kwTokType allowMacroLabel
 
 /-! ## `lex_macro_call`, `lex_macro_identifier` -/
 
